@@ -15,7 +15,7 @@ ASSUMPTIONS = ["the reference model is a flat dict: set_params(k=v) changes k (a
 
 
 def bounds(tier):
-    return {"depth": 3 if tier == "quick" else 4, "behaviour_depth": 1 if tier == "quick" else 2, "curated_keys": 8}
+    return {"depth": 2 if tier == "quick" else 4, "behaviour_depth": 1 if tier == "quick" else 2, "curated_keys": 8}
 
 
 def cases(tier, seed):
@@ -25,7 +25,8 @@ def cases(tier, seed):
     b = bounds(tier)
     for name, e in K.catalogue().items():
         for v in e["variants"]:
-            yield {"cls": name, "variant": v, "depth": b["depth"], "bdepth": b["behaviour_depth"]}
+            yield {"cls": name, "variant": v, "depth": b["depth"], "bdepth": b["behaviour_depth"],
+                   "alldepth": 1 if tier == "quick" else 2}
 
 
 # ------------------------------------------------------------------ helpers
@@ -98,19 +99,19 @@ def _category(key, v):
     return ("nested " if nested else "plain ") + t
 
 
-def _curated(est, strs, limit=8, skip=()):
+def _curated(est, strs, limit=8, skip=(), every=False):
     out = []
     seen = set()
     p = est.get_params(deep=True)
     for k in sorted(p):
         cat = _category(k, p[k])
-        if cat in seen:
+        if cat in seen and not every:
             continue
         ok, nv = _fresh_value(k, p[k], strs, est, skip)
         if ok:
             seen.add(cat)
             out.append((k, cat))
-        if len(out) >= limit:
+        if len(out) >= limit and not every:
             break
     return out
 
@@ -188,6 +189,14 @@ def run_case(case):
         bad("get_params raises %s" % type(e).__name__, "fresh object", "%s: variant %s" % (e, case["variant"]))
         return {"viol": viol, "nontrivial": False}
 
+    given = C.get("given", {}).get(case["variant"])
+    if given:
+        fl = K.flat_params(root)
+        for k, v in given.items():
+            if k not in fl:
+                bad("get_params omits a constructor argument", "fresh object", "%s=%r variant %s reports %r" % (k, v, case["variant"], sorted(fl)))
+            elif fl[k] != K.canon(v):
+                bad("get_params reports another value than the constructor was given", "fresh object", "%s=%r reported %r" % (k, v, fl[k]))
     seen = {K.digest(K.state_canon(root))}
     frontier = collections.deque([()])
     states = 1
@@ -237,7 +246,7 @@ def run_case(case):
             if after != before:
                 bad("set_params(k=current value) changes other parameters", ccat, "key %s: %r %s" % (k, _diff(before, after)[:4], hdesc))
         # ---------- transitions
-        ops = [("clone",)] + [("set", k, c) for k, c in _curated(est, strs, 8, C["skip"])] + [("transfer", v) for v in sorted(C["variants"])]
+        ops = [("clone",)] + [("set", k, c) for k, c in _curated(est, strs, 8, C["skip"], every=len(hist) < case.get("alldepth", 1))] + [("transfer", v) for v in sorted(C["variants"])]
         for op in ops:
             e2 = build(hist)
             before = K.flat_params(e2)
@@ -294,6 +303,11 @@ def run_case(case):
                 nxt = e2
             else:
                 donor = C["variants"][op[1]]()
+                dkeys = set(getattr(getattr(donor, "P", None), "Keys", []) or [])
+                rkeys = set(getattr(getattr(e2, "P", None), "Keys", []) or [])
+                if not dkeys <= rkeys:
+                    # free-form keyword parameters: set_params is only defined for names the receiver advertises
+                    continue
                 try:
                     dflat = K.flat_params(donor)
                     r = e2.set_params(**donor.get_params(deep=True))
@@ -308,9 +322,12 @@ def run_case(case):
                 except Exception as e:
                     bad("get_params raises %s" % type(e).__name__, "after transfer", "%s %s" % (e, odesc))
                     continue
-                if after != dflat:
+                # a kwargs-style object cannot lose a keyword parameter through set_params: only those extras are tolerated
+                own = set(getattr(getattr(e2, "P", None), "Keys", []) or [])
+                after_cmp = {k: v for k, v in after.items() if k in dflat or k not in own}
+                if after_cmp != dflat:
                     bad("after transfer the parameters differ from the donor's", "set_params(**other.get_params(deep=True))",
-                        "(key, donor, receiver)=%r %s" % (_diff(dflat, after)[:4], odesc))
+                        "(key, donor, receiver)=%r %s" % (_diff(dflat, after_cmp)[:4], odesc))
                 elif C["fit"] and len(hist) < case["bdepth"]:
                     # behave identically
                     try:
